@@ -21,7 +21,10 @@ type chanDrainer[T any] struct{ ch chan T }
 func (d chanDrainer[T]) drain() {
 	for {
 		select {
-		case <-d.ch:
+		case _, ok := <-d.ch:
+			if !ok {
+				return // closed and empty
+			}
 		default:
 			return
 		}
